@@ -23,7 +23,9 @@ RULE = (
     "the legacy stream; optionally an underlying file object that returns short reads). Oracle: hashlib "
     "on the whole content (blake3: one-shot single-threaded blake3 of the whole content), concatenated "
     "read() results == content == what the underlying file object returned, total_read == cumulative "
-    "length after every read (plain stream); legacy stream: md5(content.replace(CRLF, LF)) when an "
+    "length after every read (plain stream); at drawn peek positions (before the first read, between reads, "
+    "after EOF, twice in a row) hash_value == reference digest of the prefix consumed so far, tell() == the file "
+    "object's position, hash_name stable; legacy stream: md5(content.replace(CRLF, LF)) when an "
     "independent re-implementation of the sniffing rule says text, md5(content) otherwise, judged when "
     "the content fits in the first read (and, for several reads, only when the answer does not depend on "
     "per-read sniffing: no CRLF at all, every read binary, or pure text with no CRLF across a read "
@@ -161,6 +163,9 @@ LEGACY_READS = st.one_of(
 )
 
 
+# read indices before which hash_value / total_read / tell / hash_name are looked at (0 = before any read);
+# a non-empty list also peeks after EOF
+PEEKS = st.lists(st.integers(0, 5), max_size=4)
 PRE = ["h:78", "p:hello", "p:crlf", "p:A", "h:00ff", "p:b513", "p:C"]
 
 
@@ -180,6 +185,7 @@ def cases(draw):
         case["via"] = via
         case["reads"] = draw(st.lists(LEGACY_READS if legacy else PLAIN_READS, min_size=1, max_size=6))
         case["short"] = [] if legacy else draw(st.sampled_from([[], [], [], [1], [3, 700], [512], [100000]]))
+        case["peeks"] = draw(PEEKS)
     elif entry == "fobj":
         if legacy:
             mask = 0
@@ -201,6 +207,7 @@ def cases(draw):
         case["sub"] = draw(st.sampled_from(["stream", "fobj", "file"]))
         case["slack"] = draw(st.sampled_from([0, 0, 1, 100, MIB]))
         case["crlf_at"] = draw(st.lists(st.integers(0, 400), min_size=1, max_size=8))
+        case["peeks"] = draw(PEEKS)
         case["content"] = draw(content_segs(big_ok=False, text_only=draw(st.sampled_from([True, True, False]))))
     if "content" not in case:
         case["content"] = draw(content_segs(text_only=legacy and draw(st.booleans())))
@@ -255,15 +262,42 @@ def legacy_expected(content, chunks):
     return None, "multi-unjudged"
 
 
-def drive_stream(stream, spy, reads, legacy, viols, tag):
-    """Read the stream to EOF with the given size sequence. Returns the list of returned chunks."""
+def peek(stream, spy, out, cum, legacy, base, viols, tag, names):
+    """Look at hash_value (twice), total_read, tell, hash_name between reads: the digest so far must be the
+    reference digest of the prefix consumed so far (legacy stream: where legacy_expected can judge it)."""
+    consumed = b"".join(out)
+    hv1, hv2 = stream.hash_value, stream.hash_value
+    if hv1 != hv2:
+        viols.append(Viol(f"digest-unstable:{tag}", f"hash_value read twice in a row: {hv1} then {hv2}"))
+    want = legacy_expected(consumed, out)[0] if legacy else ref_digest(consumed, base)
+    if want is not None and hv1 != want:
+        viols.append(Viol(f"digest:peek:{tag}", f"hash_value after {len(consumed)} bytes ({len(out)} reads) is {hv1}, "
+                                                f"reference digest of that prefix {want}"))
+    if not legacy and stream.total_read != cum:
+        viols.append(Viol(f"total_read:{tag}", f"total_read={stream.total_read} after {cum} bytes were read"))
+    if stream.tell() != spy.tell():
+        viols.append(Viol(f"tell:{tag}", f"tell()={stream.tell()} but the file object is at {spy.tell()}"))
+    names.add(stream.hash_name)
+    if len(names) > 1:
+        viols.append(Viol(f"hash_name-changed:{tag}", f"hash_name took the values {sorted(names)}"))
+
+
+def drive_stream(stream, spy, reads, legacy, viols, tag, peeks=(), base=None):
+    """Read the stream to EOF with the given size sequence, peeking at the digest before the read indices in
+    `peeks` (0 = before the first read) and after EOF. Returns the list of returned chunks."""
     out = []
     cum = 0
     k = 0
+    names = set()
+    peeks = set(peeks)
     while True:
         n = reads[k % len(reads)]
         if k >= MAX_READS:
             n = max(n or 0, 4 * MIB)
+        if k in peeks:
+            peek(stream, spy, out, cum, legacy, base, viols, tag, names)
+            if viols:
+                return out
         k += 1
         before = len(spy.log)
         chunk = stream.read() if n is None else stream.read(n)
@@ -281,6 +315,8 @@ def drive_stream(stream, spy, reads, legacy, viols, tag):
             return out
         out.append(chunk)
         if not chunk:
+            if peeks:
+                peek(stream, spy, out, cum, legacy, base, viols, tag, names)
             return out
 
 
@@ -345,14 +381,14 @@ def crlf_variant(content, positions):
     return bytes(out)
 
 
-def digest_via(sub, content, slack, d, viols, tag):
+def digest_via(sub, content, slack, d, viols, tag, peeks=()):
     """Legacy digest of `content` through an entry point, with the content fitting in one read."""
     from dvc_data.hashfile.hash import file_md5, fobj_md5, get_hash_stream
 
     if sub == "stream":
         spy = Spy(content)
         stream = get_hash_stream(spy, LEGACY)
-        got = drive_stream(stream, spy, [max(512, len(content) + slack)], True, viols, tag)
+        got = drive_stream(stream, spy, [max(512, len(content) + slack)], True, viols, tag, peeks, LEGACY)
         if b"".join(got) != content:
             viols.append(Viol(f"bytes-altered:{tag}", "legacy stream did not hand on the content unchanged"))
         return stream.hash_value
@@ -413,7 +449,11 @@ def run_case(case, ctx):
         spy = Spy(content, case["short"])
         stream = make_stream(case, spy, base)
         tag = "stream"
-        chunks = drive_stream(stream, spy, case["reads"], legacy, viols, tag)
+        chunks = drive_stream(stream, spy, case["reads"], legacy, viols, tag, case.get("peeks", []), base)
+        if case.get("peeks"):
+            classes.append("peeks")
+            if 0 in case["peeks"]:
+                classes.append("peek-before-first-read")
         if not viols:
             if b"".join(chunks) != content:
                 viols.append(Viol(f"bytes-altered:{tag}", f"concatenated reads ({sum(map(len, chunks))} B) != "
@@ -473,8 +513,8 @@ def run_case(case, ctx):
         crlf = crlf_variant(lf, case["crlf_at"])
         both_text = ref.ref_istext(lf) and ref.ref_istext(crlf)
         with ctx.tmpdir() as d:
-            g1 = digest_via(case["sub"], lf, case["slack"], d, viols, "lf")
-            g2 = digest_via(case["sub"], crlf, case["slack"], d, viols, "crlf")
+            g1 = digest_via(case["sub"], lf, case["slack"], d, viols, "lf", case.get("peeks", []))
+            g2 = digest_via(case["sub"], crlf, case["slack"], d, viols, "crlf", case.get("peeks", []))
         classes.append("pair:" + case["sub"])
         fits = case["sub"] != "file" or max(len(lf), len(crlf)) <= MIB
         if fits:
